@@ -1,8 +1,8 @@
 package middleware
 
 import (
-	"encoding/base64"
 	"context"
+	"encoding/base64"
 	"net/http"
 	"net/url"
 	"regexp"
